@@ -739,11 +739,18 @@ static const char *text_diff(const uint8_t *orig, size_t on, const uint8_t *got,
 	uint32_t *a = malloc((on + 1) * sizeof(uint32_t)), *b = malloc((gn + 1) * sizeof(uint32_t));
 	long an = ref_utf8_decode(orig, on, a), bn = ref_utf8_decode(got, gn, b);
 	if (bn < 0) res = "result-not-wellformed";
-	else if (an >= 0 && bn == an - 1) {
-		long j = 0;
-		while (j < bn && a[j] == b[j]) j++;
-		if (a[j] == 0xfeff && (j == bn || !memcmp(a + j + 1, b + j, (size_t)(bn - j) * sizeof(uint32_t))))
-			res = j == 0 ? "U+FEFF-dropped-at-start" : "U+FEFF-dropped";
+	else if (an >= 0) {
+		long i = 0, j = 0;
+		while (i < an && a[i] == 0xfeff) i++;
+		while (j < bn && b[j] == 0xfeff) j++;
+		if (an - i == bn - j && !memcmp(a + i, b + j, (size_t)(an - i) * sizeof(uint32_t))) {
+			/* same text after the leading U+FEFF run: more than the one tolerated BOM was removed (or added) at the start */
+			res = "U+FEFF-dropped-at-start";
+		} else if (bn == an - 1) {
+			long k = 0;
+			while (k < bn && a[k] == b[k]) k++;
+			if (a[k] == 0xfeff && (k == bn || !memcmp(a + k + 1, b + k, (size_t)(bn - k) * sizeof(uint32_t)))) res = "U+FEFF-dropped";
+		}
 	}
 	free(a); free(b);
 	return res;
@@ -806,7 +813,8 @@ static void utf8_forward_back(vf_rng_t *r, const uint8_t *u, size_t n, const cha
 			bool isdiff = rk == RK_OK && rk2 == RK_OK, anyspecific = false;
 			if (any) {   /* is this specific to UTF_ANY detection, or the same failure as with the explicit type? */
 				int a, b;
-				anyspecific = !same_outcome(o, fwd_back_outcome(u, n, sz, k, F_UTF8, f16, f16, x2p, y2p, &a, &b, NULL));
+				/* only when the explicit type passes: outcomes that depend on out-of-bounds bytes are not comparable */
+				anyspecific = fwd_back_outcome(u, n, sz, k, F_UTF8, f16, f16, x2p, y2p, &a, &b, NULL) == NULL;
 				g_cur.fi = fin;
 			}
 			const char *feature = same_outcome(o0, o) ? "any-fragmentation" : k <= 1 ? "single-region" :
@@ -860,7 +868,7 @@ static void utf16_refrag(vf_rng_t *r, const uint8_t *u, size_t n, const char *ic
 		if (o) {
 			char key[160], hx[128], h1[128], h2[128], ss[160];
 			bool anyspecific = false;
-			if (any) { int a; anyspecific = !same_outcome(o, to_utf8_outcome(x, xn, sz, k, f16, u, n, y2p, &a)); g_cur.fi = fin; }
+			if (any) { int a; anyspecific = to_utf8_outcome(x, xn, sz, k, f16, u, n, y2p, &a) == NULL; g_cur.fi = fin; }
 			const char *feature = same_outcome(o0, o) ? "any-fragmentation" : k <= 1 ? "single-region" :
 					(feat & FEAT_UNIT) ? "split-inside-code-unit" : (feat & FEAT_PAIR) ? "split-inside-surrogate-pair" : "aligned-splits";
 			snprintf(key, sizeof(key), "C20:%s-to-utf8:wellformed:%s%s:%s", anyspecific ? "utf-any" : "utf16", rk == RK_OK ? "roundtrip-mismatch:" : "", o, feature);
